@@ -138,6 +138,41 @@ def cli_part(check, cases):
                 return
 
 
+def error_among_many_part(check):
+    """one file the parser cannot read among hundreds of good ones: the collector stops at the first error while the walker
+    threads are still delivering results - the run must end with the diagnostic naming that file (exit 1), not with a panic in a
+    walker thread.  A race: repeated, with several thread counts"""
+    bad_texts = ["#[typeshare]\npub struct {{{ \n", "#[typeshare]\npub struct S { a: u8,,, }\n", "#[typeshare]\npub enum E { A(, }\n"]
+    reps = 24 if check.thorough else 10
+    with Scratch() as sc:
+        for i in range(400):
+            sc.write("ws/src/f%d.rs" % i, "#[typeshare]\npub struct S%d { pub a: String }\n" % i)
+        for k in range(reps):
+            sc.write("ws/src/a_bad.rs", bad_texts[k % len(bad_texts)])
+            multi = k % 3 == 2
+            lang = LANGS[k % 6]
+            out = ["-d", sc.path("outdir")] if multi else ["-o", sc.path("out." + EXT[lang])]
+            threads = [None, "2", "4", "16"][k % 4]
+            r = run_cli(["--lang", lang] + out + lang_args(lang) + [sc.path("ws/src")], cwd=sc.path("ws"), timeout=30,
+                        env={"TYPESHARE_VERIF_THREADS": threads} if threads else {})
+            check.saw(("error-among-many", k), nontrivial=True)
+            check.count("error-among-many-rc=%s" % ("timeout" if r["timed_out"] else r["rc"]))
+            problem = None
+            if r["timed_out"]:
+                problem = "did not terminate within 30 s"
+            elif "panicked at" in r["err"]:
+                problem = "panicked: " + [l for l in r["err"].splitlines() if "panicked at" in l][0]
+            elif r["rc"] != 1 or "a_bad.rs" not in r["err"]:
+                problem = "exit status %s, diagnostic %s the unparsable file" % (r["rc"], "names" if "a_bad.rs" in r["err"] else "does not name")
+            if problem:
+                check.violation("typeshare --lang %s over 400 good files and one unparsable file (run %d of %d, walker threads %s): %s"
+                                % (lang, k + 1, reps, threads or "default", problem),
+                                case={"files": "400 x `#[typeshare] pub struct S<i> { pub a: String }` + src/a_bad.rs", "a_bad.rs": bad_texts[k % len(bad_texts)],
+                                      "lang": lang, "multi_file": multi, "threads": threads},
+                                impl={"rc": r["rc"], "stderr": r["err"][-1500:]}, failing_input=True)
+                return
+
+
 def entry_points_part(check):
     """the ways a source tree can be named on the command line: relative to the working directory (`src`, `.`, `./src`, `src/`,
     `../proj/src`), a single file, several roots (overlapping, repeated), a path that does not exist, an empty directory - each in
@@ -365,6 +400,8 @@ def run(check):
         big_tree_part(check)
     if not check.has_failing():
         entry_points_part(check)
+    if not check.has_failing():
+        error_among_many_part(check)
     if not check.has_failing():
         odd_attrs_part(check)
     if not check.has_failing():
